@@ -3,6 +3,8 @@ package props
 import (
 	"fmt"
 	"html/template"
+	"sort"
+	"strings"
 
 	"go.pennock.tech/tabular"
 	"go.pennock.tech/tabular/auto"
@@ -397,7 +399,7 @@ func init() {
 		ID:    "C14",
 		Level: "exploration",
 		Rule: "one random table per case (as in C10, with empty and nil cells, half of the tables with unique non-empty headers so that JSON renders, half with a random alignment assignment and half with a random skipable assignment on column 0 and the columns) with user properties placed before the first render on the table, on 2/3 of the columns incl. column 0, on every row, on half of the cells (up to 3 keys each) and on a cell that received 3 properties before it was added (so its chain is shared with the caller's variable), plus one recorded error; then a random sequence of 5-30 renders drawn from 9 non-text renderers (reused and fresh csv/html/json/markdown wrappers, html with cached template, caption and generator) and 2 text renderers per registered decoration (one reused wrapper switched between decorations, auto.Render). " +
-			"Each output must equal the first of its format; after every render the snapshot (NRows, NColumns, every cell's text, item identity and location, row locations, header texts, error list identities) and all user properties must be unchanged, and every (owner, key) over a fixed key set incl. the alignment and skipable keys must read what it read before the first render, set or not. Items created in an earlier state are mutated without Update before the renders: their cells must keep the text they had. A second phase renders one small table 150-400 times through fresh wrappers of alternating formats (text/markdown, ...) with the snapshot compared after every render. Distinct = distinct (table, render sequence); non-trivial = at least 2 formats rendered.",
+			"Each output must equal the first of its format; after every render the snapshot (NRows, NColumns, every cell's text, item identity and location, row locations, header texts, error list identities) and all user properties must be unchanged, and every (owner, key) over a fixed key set incl. the alignment and skipable keys must read what it read before the first render, set or not. Items created in an earlier state are mutated without Update before the renders: their cells must keep the text they had. A second phase renders one small table 150-400 times through fresh wrappers of alternating formats (text/markdown, ...) with the snapshot compared after every render. A third phase interleaves building, configuring (alignment, skipable), mutating (+Update) and rendering (wrappers kept for the whole history, and fresh ones) in histories of 8-40 steps; at every render the output must equal that of a twin rebuilt from the same operations which has never been rendered. Distinct = distinct (table, render sequence) resp. histories; non-trivial = at least 2 formats / 2 renders.",
 		Assumptions: []string{
 			"no user callback fails or mutates (the statement's proviso)",
 			"the library's private measurement properties and the number of registered callbacks are not part of the snapshot",
@@ -405,6 +407,251 @@ func init() {
 		Phases: []Phase{
 			{Name: "random tables x random render sequences", N: Fixed(1000, 300000), Run: c14Run},
 			{Name: "one table rendered 150-400 times through fresh wrappers of alternating formats", N: Fixed(8, 400), Run: c14Long},
+			{Name: "interleaved build/configure/mutate/render histories compared with a never-rendered twin", N: Fixed(1500, 300000), Run: c14TwinHistory},
 		},
 	})
+}
+
+// ---------------------------------------------------------------------------
+// histories against a twin: a long-lived table is built, configured, mutated AND rendered (through
+// wrappers kept for the whole history, and fresh ones) in one interleaved history; at every render the
+// output must equal what a twin produces - a table rebuilt from the same building/configuring/mutating
+// operations which has never been rendered before, through a fresh wrapper.  If rendering leaves anything
+// behind (on the table, a column, a cell, a wrapper or in the package) that a later operation or render
+// trips over, the live table and its twin part ways.
+
+type c14World struct {
+	t     *tabular.ATable
+	rows  []*tabular.Row
+	items map[[2]int]*gen.PS_0
+}
+
+func newC14World() *c14World {
+	return &c14World{t: tabular.New(), items: map[[2]int]*gen.PS_0{}}
+}
+
+type c14TwinOp struct {
+	desc string
+	do   func(w *c14World)
+}
+
+type c14CellSpec struct {
+	text    string
+	mutable bool
+}
+
+func (w *c14World) mkItem(row, col int, cs c14CellSpec) interface{} {
+	if cs.mutable {
+		it := &gen.PS_0{S: cs.text}
+		w.items[[2]int{row, col}] = it
+		return it
+	}
+	return cs.text
+}
+
+func c14TwinHistory(c *Ctx, i int, r *gen.R) {
+	live := newC14World()
+	var ops []c14TwinOp
+	var log []string
+	desc := map[string]interface{}{}
+	c.Case = desc
+	apply := func(op c14TwinOp) {
+		ops = append(ops, op)
+		log = append(log, op.desc)
+		desc["history"] = log
+		op.do(live)
+	}
+	fam := gen.FAscii | gen.FNewline | gen.FWide | gen.FHTML | gen.FMD | gen.FCSV
+	cell := func() c14CellSpec {
+		return c14CellSpec{text: r.Str(fam, 4), mutable: r.Chance(1, 3)}
+	}
+	nrows := func() int { return len(live.rows) }
+	// wrappers kept for the whole history
+	keptText := texttable.Wrap(live.t)
+	keptMD := markdown.Wrap(live.t)
+	keptCSV := csv.Wrap(live.t)
+	keptJSON := json.Wrap(live.t)
+	keptHTML := html.Wrap(live.t)
+	type route struct {
+		name  string
+		live  func() (string, error)
+		fresh func(t tabular.Table) (string, error)
+	}
+	deco := c17Builtins[r.Intn(len(c17Builtins))]
+	routes := []route{
+		{"text (kept wrapper)", keptText.Render, func(t tabular.Table) (string, error) { return texttable.Wrap(t).Render() }},
+		{"text (fresh wrapper)", func() (string, error) { return texttable.Render(live.t) }, func(t tabular.Table) (string, error) { return texttable.Wrap(t).Render() }},
+		{"text " + deco + " (auto)", func() (string, error) { return auto.Render(live.t, deco) }, func(t tabular.Table) (string, error) { return auto.Render(t, deco) }},
+		{"markdown (kept wrapper)", keptMD.Render, func(t tabular.Table) (string, error) { return markdown.Wrap(t).Render() }},
+		{"markdown (fresh wrapper)", func() (string, error) { return markdown.Render(live.t) }, func(t tabular.Table) (string, error) { return markdown.Wrap(t).Render() }},
+		{"csv (kept wrapper)", keptCSV.Render, func(t tabular.Table) (string, error) { return csv.Wrap(t).Render() }},
+		{"json (kept wrapper)", keptJSON.Render, func(t tabular.Table) (string, error) { return json.Wrap(t).Render() }},
+		{"json (fresh wrapper)", func() (string, error) { return json.Render(live.t) }, func(t tabular.Table) (string, error) { return json.Wrap(t).Render() }},
+		{"html (kept wrapper)", keptHTML.Render, func(t tabular.Table) (string, error) { return html.Wrap(t).Render() }},
+	}
+	var alignedCols []int
+	// configuration of the kept HTML wrapper (wrapper state, not table state): the twin's fresh wrapper gets the current one
+	htmlCfg := struct {
+		id, class, caption string
+		gen                bool
+	}{}
+	genFn := func(n int, _ interface{}) template.HTMLAttr { return template.HTMLAttr(fmt.Sprintf("row-%d", n)) }
+	routes[len(routes)-1].fresh = func(t tabular.Table) (string, error) {
+		h := html.Wrap(t)
+		h.Id, h.Class, h.Caption = htmlCfg.id, htmlCfg.class, htmlCfg.caption
+		if htmlCfg.gen {
+			h.SetRowClassGenerator(genFn, nil)
+		}
+		return h.Render()
+	}
+	renders := 0
+	steps := r.Range(8, 40)
+	for s := 0; s < steps; s++ {
+		switch r.Intn(14) {
+		case 0:
+			n := r.Range(0, 4)
+			hs := make([]interface{}, n)
+			for k := range hs {
+				hs[k] = fmt.Sprintf("key%d", k+1)
+				if r.Chance(1, 6) {
+					hs[k] = r.Str(fam, 2)
+				}
+			}
+			apply(c14TwinOp{fmt.Sprintf("AddHeaders(%d items)", n), func(w *c14World) { w.t.AddHeaders(hs...) }})
+		case 1, 2:
+			n := r.Range(0, 4)
+			cs := make([]c14CellSpec, n)
+			for k := range cs {
+				cs[k] = cell()
+			}
+			row := nrows()
+			apply(c14TwinOp{fmt.Sprintf("AddRowItems(%d items)", n), func(w *c14World) {
+				items := make([]interface{}, n)
+				for k := range items {
+					items[k] = w.mkItem(row, k, cs[k])
+				}
+				w.t.AddRowItems(items...)
+				all := w.t.AllRows()
+				w.rows = append(w.rows, all[len(all)-1])
+			}})
+		case 3:
+			apply(c14TwinOp{"AppendNewRow()", func(w *c14World) { w.rows = append(w.rows, w.t.AppendNewRow()) }})
+		case 4:
+			apply(c14TwinOp{"AddSeparator()", func(w *c14World) {
+				w.t.AddSeparator()
+				all := w.t.AllRows()
+				w.rows = append(w.rows, all[len(all)-1])
+			}})
+		case 5, 6:
+			if nrows() == 0 {
+				continue
+			}
+			row := r.Intn(nrows())
+			if live.rows[row].IsSeparator() {
+				continue
+			}
+			col := len(live.rows[row].Cells())
+			cs := cell()
+			apply(c14TwinOp{fmt.Sprintf("row %d .Add(cell)", row+1), func(w *c14World) {
+				w.rows[row].Add(tabular.NewCell(w.mkItem(row, col, cs)))
+			}})
+		case 7:
+			col := r.Range(0, live.t.NColumns())
+			a := r.Intn(4)
+			if len(alignedCols) > 0 && r.Bool() {
+				// touch a column again that already has a setting; half of the time withdraw it
+				col = alignedCols[r.Intn(len(alignedCols))]
+				if r.Bool() {
+					a = 0
+				}
+			}
+			if a != 0 {
+				alignedCols = append(alignedCols, col)
+			}
+			apply(c14TwinOp{fmt.Sprintf("column %d alignment := %s", col, alignNames[a]), func(w *c14World) {
+				var v interface{}
+				if a != 0 {
+					v = alignVals[a]
+				}
+				w.t.Column(col).SetProperty(align.PropertyType, v)
+			}})
+		case 8:
+			col := r.Range(0, live.t.NColumns())
+			v := []interface{}{nil, true, false}[r.Intn(3)]
+			apply(c14TwinOp{fmt.Sprintf("column %d skipable := %v", col, v), func(w *c14World) {
+				w.t.Column(col).SetProperty(properties.Skipable, v)
+			}})
+		case 11:
+			// reconfigure the kept HTML wrapper
+			htmlCfg.id, htmlCfg.class, htmlCfg.caption, htmlCfg.gen = r.Str(gen.FAscii|gen.FHTML, 2), r.Str(gen.FAscii, 2), r.Str(gen.FAscii|gen.FHTML, 2), r.Bool()
+			keptHTML.Id, keptHTML.Class, keptHTML.Caption = htmlCfg.id, htmlCfg.class, htmlCfg.caption
+			if htmlCfg.gen {
+				keptHTML.SetRowClassGenerator(genFn, nil)
+			} else {
+				keptHTML.SetRowClassGenerator(nil, nil)
+			}
+			log = append(log, fmt.Sprintf("kept HTML wrapper reconfigured (generator=%v)", htmlCfg.gen))
+		case 9, 10:
+			// mutate an item in place and Update its cell
+			var keys [][2]int
+			for k := range live.items {
+				keys = append(keys, k)
+			}
+			if len(keys) == 0 {
+				continue
+			}
+			sort.Slice(keys, func(a, b int) bool {
+				return keys[a][0] < keys[b][0] || keys[a][0] == keys[b][0] && keys[a][1] < keys[b][1]
+			})
+			k := keys[r.Intn(len(keys))]
+			nt := r.Str(fam, 4)
+			if r.Chance(1, 3) {
+				nt = sameShapeText(live.items[k].S)
+			}
+			apply(c14TwinOp{fmt.Sprintf("item of cell (%d,%d) mutated to %q, then Update", k[0]+1, k[1]+1, nt), func(w *c14World) {
+				w.items[k].S = nt
+				if p, err := w.t.CellAt(tabular.CellLocation{Row: k[0] + 1, Column: k[1] + 1}); err == nil {
+					p.Update()
+				}
+			}})
+		default:
+			// render the live table; its twin has never been rendered
+			rt := routes[r.Intn(len(routes))]
+			log = append(log, "render: "+rt.name)
+			desc["history"] = log
+			out, err := rt.live()
+			twin := newC14World()
+			for _, op := range ops {
+				op.do(twin)
+			}
+			want, werr := rt.fresh(twin.t)
+			renders++
+			c.Rec.Count("renders_compared_with_a_never_rendered_twin", 1)
+			if (err != nil) != (werr != nil) || out != want {
+				c.Rec.Violate("live-table-differs-from-twin:"+formatClass(strings.Fields(rt.name)[0]), fmt.Sprintf("after %d steps, %s of the long-lived table gives %q (err %v); a twin rebuilt from the same %d building/configuring/mutating operations and never rendered before gives %q (err %v)", len(log), rt.name, out, err, len(ops), want, werr), desc)
+				return
+			}
+		}
+	}
+	c.Rec.Eval(gen.Hash64("twin", fmt.Sprint(log)), renders >= 2)
+	c.Rec.Count("twin_history_steps", int64(len(log)))
+	if c.Rec.WantSample() && i%25 == 6 {
+		c.Rec.Sample(map[string]interface{}{"history_against_a_twin": log})
+	}
+}
+
+// sameShapeText rotates ASCII letters and digits (same width, same number of lines).
+func sameShapeText(s string) string {
+	b := []byte(s)
+	for i, ch := range b {
+		switch {
+		case ch >= 'a' && ch <= 'z':
+			b[i] = 'a' + (ch-'a'+1)%26
+		case ch >= 'A' && ch <= 'Z':
+			b[i] = 'A' + (ch-'A'+1)%26
+		case ch >= '0' && ch <= '9':
+			b[i] = '0' + (ch-'0'+1)%10
+		}
+	}
+	return string(b)
 }
